@@ -612,9 +612,21 @@ def case_setters(c):
         F = new_fourier(t0, cfg0['fmin'], cfg0['fmax'], base['sig'], ft0,
                         ftarg0, {})
         cfg = cfg0
+        kept = []
+
+        def use():
+            # the object is USED between the setter calls (filled spectrum
+            # and transform), and the caller keeps what was returned
+            if F.freq_compute.size >= 4:
+                fd_ = spectra(np.asarray(F.freq_compute), [])[1][1]
+                r_ = F.interpolate(fd_.copy())
+                kept.append((r_, np.array(r_, copy=True)))
+                F.freq2time(fd_.copy(), 50.0)
+        use()
         for op in ops:
             cfg = apply_semantic(cfg, op, req0)
             apply_real(F, op, cfg, inp)
+            use()
         kw = {}
         if cfg['every'] is not None:
             kw['every_x_freq'] = cfg['every']
@@ -637,6 +649,12 @@ def case_setters(c):
                         'setter-history-changes-frequency-bookkeeping'),
                 'what': f'{what}: {n} differs from a fresh Fourier with the '
                         'same settings'})
+            break
+    for k_, (r_, rc_) in enumerate(kept):
+        if not np.array_equal(r_, rc_, equal_nan=True):
+            viol.append({'cls': 'filled-spectrum-overwritten-by-later-call',
+                         'what': f'{what}: the array returned by interpolate '
+                                 f'call {k_} changed during later calls'})
             break
     same = True
     if not viol and G.freq_compute.size >= 4:
